@@ -125,7 +125,7 @@ class FeatureTransformerGeneric:
 
         invalid_transforms = 0
         new_columns = dict()
-        for numeric_column in self.numeric_column_names:
+        for numeric_column in sorted(self.numeric_column_names):
             X = self.get_vals(dataframe, numeric_column)
 
             if len(X) == 0:
